@@ -153,6 +153,43 @@ def gen_frame(rng, k, step):
             "zero_usage": sorted(rng.sample(range(n), min(n, rng.choice([0, 0, 1, 3, 8]))))}
 
 
+def gen_long_span(rng, k, start_on):
+    """an hourly frame of 8-12 months that STARTS on a DST-transition day (start_on = 'spring': a 23-hour day, 'fall': a
+    25-hour day; 'any': an ordinary day) and contains the opposite transition, with a gap-free daily meter at local
+    midnight (the meter index then has the calendar-day frequency set)"""
+    zs = [z for z in ZONES if tzdays.dst_changes_cached(z)]
+    z = rng.choice(zs)
+    ch = tzdays.dst_changes_cached(z)
+    picks = []
+    for i, t in enumerate(ch[:-1]):
+        d = tzdays.local_date(t, z)
+        length = tzdays.day_start(d + dt.timedelta(days=1), z) - tzdays.day_start(d, z)
+        if (start_on == "spring" and length < 1440) or (start_on == "fall" and length > 1440) or start_on == "any":
+            picks.append(i)
+    i = rng.choice(picks)
+    d0 = tzdays.local_date(ch[i], z) - dt.timedelta(days=0 if start_on != "any" else rng.randrange(1, 40))
+    d1 = tzdays.local_date(ch[i + 1], z) + dt.timedelta(days=rng.randrange(2, 40))
+    nd = (d1 - d0).days
+    b = [tzdays.day_start(d0 + dt.timedelta(days=j), z) for j in range(nd + 1)]
+    t0 = b[0]
+    n = (b[nd] - t0) // 60
+    temps = gen_temps(rng, n)
+    pats = nan_patterns(rng, temps, b, t0, 60)
+    # a few NaNs on the transition days themselves
+    for t in (ch[i], ch[i + 1]):
+        lo = (tzdays.day_start(tzdays.local_date(t, z), z) - t0) // 60
+        for q in rng.sample(range(24), rng.choice([0, 2, 5])):
+            if 0 <= lo + q < n:
+                temps[lo + q] = None
+    for q in (0, n - 1):            # first and last reading present: from_series keeps the frame regular (hourly path)
+        if temps[q] is None:
+            temps[q] = 4 * rng.randrange(20, 80)
+    return {"kind": "frame", "zone": z, "step": 60, "t0": t0, "temps": temps, "meter": "daily0", "meter_hour": 0,
+            "skip_days": [], "how": rng.choice(["df", "df", "series"]), "klass": rng.choice(["baseline", "reporting"]),
+            "feed_zone": "UTC", "patterns": pats + ["long-span/" + start_on], "on_dst": True, "bounds": b,
+            "elec": rng.random() < 0.5, "zero_usage": [], "cls": "daily"}
+
+
 def gen_billing_temp(rng, k):
     """billing meter on an hourly frame: a few 27..33-day periods"""
     z = rng.choice(ZONES)
@@ -659,6 +696,23 @@ def witness_weather_only(cls, how):
             "bounds": b, "elec": False, "zero_usage": [], "cls": cls}
 
 
+def witness_spring_start():
+    """America/New_York, hourly feed and gap-free daily meter from 2023-03-12 (a 23-hour day) to 2023-11-20: the span
+    contains the 25-hour day 2023-11-05, whose 25 readings all belong to it"""
+    z = "America/New_York"
+    d0, d1 = dt.date(2023, 3, 12), dt.date(2023, 11, 20)
+    nd = (d1 - d0).days
+    b = [tzdays.day_start(d0 + dt.timedelta(days=j), z) for j in range(nd + 1)]
+    n = (b[nd] - b[0]) // 60
+    temps = [4 * (35 + (i * 11) % 47) for i in range(n)]
+    lo = (tzdays.day_start(dt.date(2023, 11, 5), z) - b[0]) // 60
+    for q in (3, 9, 17):
+        temps[lo + q] = None
+    return {"kind": "frame", "zone": z, "step": 60, "t0": b[0], "temps": temps, "meter": "daily0", "meter_hour": 0,
+            "skip_days": [], "how": "df", "klass": "baseline", "feed_zone": "UTC", "patterns": ["long-span/spring"],
+            "on_dst": True, "bounds": b, "elec": False, "zero_usage": [], "cls": "daily"}
+
+
 def probe():
     """scale: is the sub-hourly mean divided by its coverage (code as it is) or not (repaired)?
     exact: are the sub-hourly counts per-day counts (repaired) or the flag of the day-start reading (code as it is)?"""
@@ -694,6 +748,7 @@ def warm_imports():
 N_HOURLY = (140, 2500)
 N_SUB = (90, 1500)
 N_BILL = (24, 250)
+N_LONG = (4, 60)
 
 
 def main():
@@ -708,7 +763,8 @@ def main():
         "from_series(None, feed in UTC / at a fixed offset, tzinfo=site), frames without usage; daily and billing class; feeds "
         "that do not start at local midnight); Daily baseline / reporting classes through the frame constructor and "
         "from_series with the feed in the meter zone or at a fixed UTC offset (-12 .. +14, +5:30, +5:45); billing class on an "
-        "hourly frame of 2-4 periods. distinct = (path, case hash); non-trivial = the class returned a frame")
+        "hourly frame of 2-4 periods; hourly frames of 8-12 months that START on a spring-forward / fall-back day and contain the "
+        "opposite transition, gap-free daily meter (calendar-day frequency set on the meter index). distinct = (path, case hash); non-trivial = the class returned a frame")
     run.assumptions += [
         "pandas (merge_asof backward, groupby mean/count, asfreq/ffill, resample) is re-specified in Model/TempAgg.v and tied by "
         "the correspondence only; the meter index (data.df.index) and the frame handed to the constructor are observed and "
@@ -747,13 +803,15 @@ def main():
         cases += [witness_case(), witness_last_day_dst(), witness_billing_short_day(),
                   witness_zero_fahrenheit("df"), witness_zero_fahrenheit("series-offset"),
                   witness_weather_only("billing", "series-none"), witness_weather_only("billing", "df-nocol"),
-                  witness_weather_only("daily", "series-none")]
+                  witness_weather_only("daily", "series-none"), witness_spring_start()]
         for k in range(nn(N_HOURLY)):
             cases.append(gen_frame(run.rng, k, 60))
         for k in range(nn(N_SUB)):
             cases.append(gen_frame(run.rng, k, run.rng.choice([30, 30, 15])))
         for k in range(nn(N_BILL)):
             cases.append(gen_billing_temp(run.rng, k))
+        for k in range(nn(N_LONG)):
+            cases.append(gen_long_span(run.rng, k, ["spring", "fall", "spring", "any"][k % 4]))
     jobs = [(i, run.seed, "case", c, flags) for i, c in enumerate(cases)]
     import multiprocessing as mp
     nproc = int(os.environ.get("VERIF_PROCS", "14"))
